@@ -40,6 +40,11 @@ type Outcome struct {
 	SimNanos   int64          `json:"sim_ns"`
 	Inconcl    bool           `json:"inconclusive,omitempty"`
 	Note       string         `json:"note,omitempty"`
+	// Plan, when set, is the concrete failing plan derived from the executed
+	// one (fault enumeration): it replaces the plan for shrinking and replay.
+	Plan any `json:"-"`
+	// Evals counts the executions this outcome stands for (enumeration).
+	Evals int `json:"evals,omitempty"`
 }
 
 // Engine is implemented once per engine package.
@@ -298,7 +303,13 @@ func doSearch(eng Engine, res *Result, name, prop, tier, variant string) {
 				res.DetMismatch = append(res.DetMismatch, fmt.Sprintf("run_seed=%d %s vs %s", rs, o.LogHash, o2.LogHash))
 			}
 		}
+		if o.Evals > 1 {
+			res.Runs += o.Evals - 1
+		}
 		if o.Violation != nil {
+			if o.Plan != nil {
+				plan = o.Plan
+			}
 			if seenKeys[o.Violation.Key] {
 				continue
 			}
